@@ -382,7 +382,7 @@ pub fn build(quick: bool) -> Vec<Scenario> {
     // the plain list
     v.push(Scenario::new("C19", "list_v0", "list0.prod1_1.pop2", Arc::new(|e| v0_member(e, &[1, 1], 2))).fine().bound(d + 1));
     v.push(Scenario::new("C19", "list_v0", "list0.prod2_1.pop2", Arc::new(|e| v0_member(e, &[2, 1], 2))).fine().bound(d));
-    let depth = if quick { 5 } else { 8 };
+    let depth = if quick { 5 } else { 7 };
     v.push(Scenario::new("C19", "sweep", format!("list.sweep.depth{}", depth), Arc::new(move |e| sweep(e, depth, false))).fine().sequential().bound(0).horizon(u64::MAX));
     // handles that outlive the queue (timeout_list drops per-interval lists while TimeoutHandles are alive)
     v.push(Scenario::new("C19", "sweep", format!("list.sweep.depth{}.queue_dropped_first", depth), Arc::new(move |e| sweep(e, depth, true))).fine().sequential().bound(0).horizon(u64::MAX));
